@@ -50,6 +50,24 @@ def in_choices(choices: list[str]) -> Callable[[Union[str, list[str]]], None]:
     return _is_one_of
 
 
+def _is_choice(choices: list[str]) -> Callable[[str], None]:
+    # a single string value out of the given choices (e.g. the JWK "use" member)
+    def _validate(value: str) -> None:
+        if not isinstance(value, str) or value not in choices:
+            raise ValueError(f"must be one of {choices}")
+
+    return _validate
+
+
+def _is_list_of_choices(choices: list[str]) -> Callable[[list[str]], None]:
+    # an array of string values out of the given choices (e.g. the JWK "key_ops" member)
+    def _validate(value: list[str]) -> None:
+        if not isinstance(value, list) or not all(isinstance(v, str) and v in choices for v in value):
+            raise ValueError(f"must be a list of {choices}")
+
+    return _validate
+
+
 def not_support(_: Any) -> None:
     raise ValueError("is not supported")
 
@@ -135,10 +153,10 @@ JWE_HEADER_REGISTRY = {
 #: Basic JWK parameter registry
 JWK_PARAMETER_REGISTRY = {
     "kty": KeyParameter("Key Type", is_str, required=True),  # This member MUST be present in a JWK.
-    "use": KeyParameter("Public Key Use", in_choices(["sig", "enc"])),
+    "use": KeyParameter("Public Key Use", _is_choice(["sig", "enc"])),
     "key_ops": KeyParameter(
         "Key Operations",
-        in_choices([
+        _is_list_of_choices([
             "sign",
             "verify",
             "encrypt",
